@@ -35,7 +35,7 @@ class Runner:
             snap["arg%d" % k] = (render(o), alias_of(o))
         return snap
 
-    def _delta(self, n0, recv, copies, raised):
+    def _delta(self, n0, recv, copies, raised, extra_base=None):
         U = self.U
         out = []
         newprev = {}
@@ -49,6 +49,8 @@ class Runner:
                 base = U.prev.get(i)
             elif copies and i == n0 and recv is not None:
                 base = U.prev.get(recv)
+            elif extra_base and i in extra_base:
+                base = U.prev.get(extra_base[i])        # the copy made by a delegated @builder call
             else:
                 base = None
             for a in sorted(cur):
@@ -58,6 +60,13 @@ class Runner:
             U.prev_vals[i] = dict(vars(o))
         U.prev.update(newprev)          # baselines are the dumps from BEFORE the call for every object
         return out
+
+    def _dead_after_exception(self, copies, rk):
+        """the model allocates the copy (and a wrapper for RNew methods) even when the call raises: dead placeholders"""
+        if copies:
+            self.U.track(None)
+        if rk[0] == "new":
+            self.U.track(None)
 
     # ------------------------------------------------------------------------------------------
     def step(self, st):
@@ -159,14 +168,39 @@ class Runner:
         # ---- register new objects in the model's allocation order: the copy first, then a wrapper ----
         body, ret, wrap = None, 0, []
         rk = m["ret"]
+        # a row  return self.<a>.<m2>(...)  (Joiner.on -> self.query._with_join(join)): the delegated @builder call
+        d_target, d_row, d_copies, d_body, d_base = None, None, False, None, {}
+        if rk[0] == "call":
+            d_target = getattr(ro, rk[1], None)
+            d_cls = self.tab.get(qual(d_target)) if d_target is not None else None
+            d_row = d_cls["methods"].get(rk[2]) if d_cls else None
+            if d_row is None:
+                return {"kind": "skip", "why": "delegated method %s not in the class table" % rk[2]}
+            U.track(d_target, visible=False)
+            d_copies = bool(d_row["copies"] and getattr(d_target, "immutable", True))
         if exc is not None:
-            # the model allocates the copy (and a wrapper for RNew methods) even when the call raises: dead placeholders
-            if copies:
-                U.track(None)
-            if rk[0] == "new":
-                U.track(None)
-            if not copies:
-                body = ro           # no copy was made: whatever the body did before raising, it did to the receiver
+            if rk[0] == "call":
+                if copies:
+                    U.track(None)
+                if d_copies:
+                    U.track(None)
+                else:
+                    d_body = d_target       # the delegated call ran in place: what it did before raising it did to that object
+                if not copies:
+                    body = ro
+            else:
+                self._dead_after_exception(copies, rk)
+                if not copies:
+                    body = ro
+        elif rk[0] == "call":
+            body = ro if not copies else None
+            if d_copies:
+                d_body = res
+                ret = U.track(res)
+                d_base[ret] = U.idx[id(d_target)]
+            else:
+                d_body = d_target
+                ret = U.track(res)
         else:
             if rk[0] == "self":
                 if copies:
@@ -188,68 +222,74 @@ class Runner:
                 ret = U.track(res)
         # ---- resolve the effect list ----
         chs = []
-        rebound_later = {}
-        effs = m["effects"]
 
-        def target_obj(tg):
-            if tg == "self":
-                return body
-            k, _, rest = tg.partition(":")
-            if k == "via":
-                return getattr(body, rest, None) if body is not None else None
-            if k == "arg":
-                for pn, ix in arg_idx:
-                    if pn == rest:
-                        return U.objs[ix]
-                return None
-            if k == "argvia":
-                p, _, a = rest.partition(":")
-                for pn, ix in arg_idx:
-                    if pn == p:
-                        return getattr(U.objs[ix], a, None)
-            return None
+        def resolve(effs, body, copies, base_recv, recopy):
+          out_chs = []
 
-        def base_dump(tobj, tg):
-            """dump of the object the target's attributes are compared against"""
-            if tobj is None or isinstance(tobj, PRIMS) or id(tobj) not in U.idx:
-                return None, None
-            ti = U.idx[id(tobj)]
-            if ti < n0:
-                return U.prev.get(ti), U.prev_vals.get(ti)
-            if tg == "self" and copies:
-                return U.prev.get(recv), U.prev_vals.get(recv)
-            return None, None
+          def target_obj(tg):
+              if tg == "self":
+                  return body
+              k, _, rest = tg.partition(":")
+              if k == "via":
+                  return getattr(body, rest, None) if body is not None else None
+              if k == "arg":
+                  for pn, ix in arg_idx:
+                      if pn == rest:
+                          return U.objs[ix]
+                  return None
+              if k == "argvia":
+                  p, _, a = rest.partition(":")
+                  for pn, ix in arg_idx:
+                      if pn == p:
+                          return getattr(U.objs[ix], a, None)
+              return None
 
-        for k_, (tg, kind, attr) in enumerate(effs):
-            tobj = target_obj(tg)
-            if tobj is None or isinstance(tobj, PRIMS) or id(tobj) not in U.idx:
-                chs.append([False, False, []])
-                continue
-            val = vars(tobj).get(attr, _MISSING) if hasattr(tobj, "__dict__") else _MISSING
-            if val is _MISSING:
-                chs.append([False, False, []])
-                continue
-            cur = U.dump_value(val)
-            bd, bv = base_dump(tobj, tg)
-            if kind == "rebind":
-                fired = is_diff(bd, attr, cur) if not cur[0] else (bd is None or attr not in bd or not bd[attr][0] or bd[attr][1] != cur[1])
-                chs.append([bool(fired), cur[0], cur[2]])
-            else:
-                later = any(t2 == tg and a2 == attr and k2 == "rebind" for (t2, k2, a2) in effs[k_ + 1:])
-                if later and bv is not None and attr in bv and (bd is None or attr not in bd or bd[attr][1] != cur[1]):
-                    # the in-place write hit the container that was there before a later rebinding
-                    ti = U.idx[id(tobj)]
-                    if tg == "self" and copies and attr in (self.tab[qual(ro)]["recopy"]):
-                        chs.append([False, False, []])      # it hit the private copy made by __copy__, now garbage
-                    else:
-                        old = U.dump_value(bv[attr])
-                        chs.append([True, old[0], old[2]])
-                else:
-                    chs.append([True, cur[0], cur[2]])
+          def base_dump(tobj, tg):
+              """dump of the object the target's attributes are compared against"""
+              if tobj is None or isinstance(tobj, PRIMS) or id(tobj) not in U.idx:
+                  return None, None
+              ti = U.idx[id(tobj)]
+              if ti < n0:
+                  return U.prev.get(ti), U.prev_vals.get(ti)
+              if tg == "self" and copies:
+                  return U.prev.get(base_recv), U.prev_vals.get(base_recv)
+              return None, None
+
+          for k_, (tg, kind, attr) in enumerate(effs):
+              tobj = target_obj(tg)
+              if tobj is None or isinstance(tobj, PRIMS) or id(tobj) not in U.idx:
+                  out_chs.append([False, False, []])
+                  continue
+              val = vars(tobj).get(attr, _MISSING) if hasattr(tobj, "__dict__") else _MISSING
+              if val is _MISSING:
+                  out_chs.append([False, False, []])
+                  continue
+              cur = U.dump_value(val)
+              bd, bv = base_dump(tobj, tg)
+              if kind == "rebind":
+                  fired = is_diff(bd, attr, cur) if not cur[0] else (bd is None or attr not in bd or not bd[attr][0] or bd[attr][1] != cur[1])
+                  out_chs.append([bool(fired), cur[0], cur[2]])
+              else:
+                  later = any(t2 == tg and a2 == attr and k2 == "rebind" for (t2, k2, a2) in effs[k_ + 1:])
+                  if later and bv is not None and attr in bv and (bd is None or attr not in bd or bd[attr][1] != cur[1]):
+                      # the in-place write hit the container that was there before a later rebinding
+                      ti = U.idx[id(tobj)]
+                      if tg == "self" and copies and attr in recopy:
+                          out_chs.append([False, False, []])      # it hit the private copy made by __copy__, now garbage
+                      else:
+                          old = U.dump_value(bv[attr])
+                          out_chs.append([True, old[0], old[2]])
+                  else:
+                      out_chs.append([True, cur[0], cur[2]])
+          return out_chs
+
+        chs = resolve(m["effects"], body, copies, recv, self.tab[qual(ro)]["recopy"])
+        if rk[0] == "call":
+            chs += resolve(d_row["effects"], d_body, d_copies and exc is None, U.idx[id(d_target)], self.tab[qual(d_target)]["recopy"])
         if exc is None and rk[0] == "new":
             d = U.dump_obj(res)
             wrap = [[a, d[a][0], d[a][2]] for a in sorted(d)]
-        delta = self._delta(n0, recv, copies, exc is not None)
+        delta = self._delta(n0, recv, copies, exc is not None, d_base)
         # ---- oracle data: what the user can see change ----
         after = self.snapshot(inline)
         changes = []
